@@ -3,6 +3,7 @@
 // unqualified calls `sin (r)`, `fabs (x)` of ImathMatrix.h / ImathFrame.h are ambiguous with the ADL candidates symns::sin.
 #include <math.h>
 #include "sym.h"
+#include "c10frac.h" // FracS: Vec3::length at exact fractions so that lean_tv covers the entries calling it
 // NB: IMATH_NOEXCEPT is NOT overridden here (it was, while firstFrame() was declared noexcept although it calls normalizeExc(); fixed in
 // /repo by 24cea33): the extractor sees the headers as shipped.  firstFrame's pi == pj path is the `.error Exc.domainError` leaf of
 // Gen.Frame.firstFrame; harness/corr/c09_noexcept.cpp observes on the shipped build that this exception really reaches the caller.
